@@ -63,7 +63,7 @@ def _body(draw, names):
         else:
             lines.append("acc = [%s, %d]" % (n, i))
     if draw(st.booleans()):
-        lines.append("return %s" % draw(st.sampled_from(pool)))
+        lines.append("return %s" % draw(st.sampled_from(pool + ["None"])))
     return lines
 
 
@@ -74,6 +74,8 @@ def _case(draw):
     tidy = draw(st.booleans())
     forced = draw(st.sampled_from((None, None, "returns_default")))
     ir = draw(domain.ir_strategy(allowed=TIDY if tidy else CORE_ALLOWED, forced=forced, max_params=4))
+    if ir.get("returns") and "doc" in ir["returns"] and draw(st.integers(0, 2)) == 0:
+        ir["returns"]["default"] = domain.NONE_STR  # what parse.function records for a documented `return None`
     body = None
     if draw(st.booleans()):
         body = draw(_body([p["name"] for p in ir["params"] if not p["name"].endswith("kwargs")]))
@@ -109,7 +111,9 @@ def build_ir(case):
             from collections import OrderedDict
 
             rt = dict((ir.get("returns") or {}).get("return_type", {}) or {})
-            rt["default"] = "```%s```" % ast.unparse(body[-1].value)
+            v = body[-1].value
+            # (`return None` is stored as the None marker, anything else as back-tick quoted source)
+            rt["default"] = domain.NONE_STR if isinstance(v, ast.Constant) and v.value is None else "```%s```" % ast.unparse(v)
             rt.setdefault("doc", "the result")
             ir["returns"] = OrderedDict((("return_type", rt),))
     return ir
